@@ -339,7 +339,10 @@ def expand_fn(repo, d, log):
     return segs, info
 
 
-ATTR_LINE = re.compile(rb"^[ \t]*#\[(serde|strum|enum_map|cfg_attr|doc\(hidden\)|non_exhaustive)[^\n]*\]\s*?\n", re.M)
+ATTR_LINE = re.compile(rb"^[ \t]*#\[(serde|strum|enum_map|cfg_attr|doc\(hidden\)|non_exhaustive|error|from|default)\b[^\n]*\]\s*?\n", re.M)
+
+
+ATTR_INLINE = re.compile(rb"#\[(serde|from|source|strum|enum_map)\b[^\]]*\][ \t]*")
 
 
 def expand_type(repo, d, log):
@@ -386,6 +389,7 @@ def expand_type(repo, d, log):
     body = data[it["after_attrs"]:e0]
     # X1: drop serde/strum/enum_map attribute lines on fields and variants
     stripped = ATTR_LINE.sub(b"", body)
+    stripped = ATTR_INLINE.sub(b"", stripped)
     for ms in rewrites:
         (frm, _), (to, _) = ms
         if stripped.count(frm.encode()) != 1:
@@ -394,7 +398,7 @@ def expand_type(repo, d, log):
         log.append({"rule": "X1:visibility", "file": rel, "item": path, "line": line_of(data, s0), "before": frm, "after": to})
     log.append({"rule": "X1:type-attrs", "file": rel, "item": path, "line": line_of(data, s0),
                 "before": ", ".join(orig_derives), "after": ", ".join(derive),
-                "dropped_inner_attr_lines": [m.group(0).decode().strip() for m in ATTR_LINE.finditer(body)]})
+                "dropped_inner_attr_lines": [m.group(0).decode().strip() for m in ATTR_LINE.finditer(body)] + [m.group(0).decode().strip() for m in ATTR_INLINE.finditer(ATTR_LINE.sub(b"", body))]})
     segs = [(head, ("tmpl", d["tline"])), (stripped, ("src", rel, it["after_attrs"]) if not rewrites and stripped == body else ("tmpl", d["tline"]))]
     info = {"file": rel, "path": path, "kind": it["kind"], "line": line_of(data, s0), "derive": derive,
             "sha": hashlib.sha256(stripped).hexdigest()[:16]}
